@@ -132,7 +132,7 @@ macro_rules! program_impl {
                 let (ra, va) = step_backend::<T, DMatrix<T>>(c, "nalgebra", &op, &mo, &mut ba, step);
                 if let MOut::Unspecified(why) = &mo {
                     c.bucket(&format!("unspecified:{}", why));
-                    if matches!(op, Op::Eq(_, _)) {
+                    if matches!(op, Op::Eq(_, _) | Op::PerturbedEq(_, _, _, _)) {
                         // `==` of operands that differ by less than rounding: DenseMatrix compares with an
                         // epsilon, ndarray / nalgebra use their own exact PartialEq — "up to rounding"
                         continue;
